@@ -39,11 +39,15 @@ type Case struct {
 }
 
 type Variant struct {
-	Drop   int     `json:"drop,omitempty"`   // C06/C14: index of the op removed in the twin run
-	Perm   []int   `json:"perm,omitempty"`   // C16: new order of ops (indices into Ops)
-	Defer  bool    `json:"defer,omitempty"`  // C16: twin run toggles DeferAcyclicVerification
-	Hoist  bool    `json:"hoist,omitempty"`  // C16: twin run creates every scope as early as possible (right after its parent)
-	Encode []EncFn `json:"encode,omitempty"` // (unused)
+	Drop  int   `json:"drop,omitempty"`  // C06/C14: index of the op removed in the twin run
+	Perm  []int `json:"perm,omitempty"`  // C16: new order of ops (indices into Ops)
+	Defer bool  `json:"defer,omitempty"` // C16: twin run toggles DeferAcyclicVerification
+	// C15: the alternative encodings keep the order of all parameter leaves
+	// (runs of parameters wrapped into objects): executions are compared
+	// also on histories with failing functions
+	Ordered bool    `json:"ordered,omitempty"`
+	Hoist   bool    `json:"hoist,omitempty"`  // C16: twin run creates every scope as early as possible (right after its parent)
+	Encode  []EncFn `json:"encode,omitempty"` // (unused)
 	// C15: alternative, equivalent encodings of some operations' functions
 	// and options, by op index
 	Alt map[int]*AltOp `json:"alt,omitempty"`
